@@ -43,10 +43,10 @@ TrRx == /\ IsEvent("Rx")
         /\ \E c \in BOOLEAN : Rx(Ev.args.p, Ev.args.f, c)
         /\ ObsOK(last'.exp, Ev.obs)
 TrPacketOut == /\ IsEvent("PacketOut")
-               /\ PacketOut(Ev.args.ip, Ev.args.f, Ev.args.acts)
+               /\ \E k \in BOOLEAN : PacketOut(Ev.args.ip, Ev.args.f, Ev.args.acts, k)
                /\ ObsOK(last'.exp, Ev.obs)
 TrPacketOutBuf == /\ IsEvent("PacketOutBuf")
-                  /\ PacketOutBuf(Ev.args.k, Ev.args.acts)
+                  /\ \E kp \in BOOLEAN : PacketOutBuf(Ev.args.k, Ev.args.acts, kp)
                   /\ ObsOK(last'.exp, Ev.obs)
 TrFlowMod == IsEvent("FlowMod") /\ FlowMod(Ev.args.acts) /\ Ev.obs.quiet
 TrFlowDel == IsEvent("FlowDel") /\ FlowDel /\ Ev.obs.quiet
